@@ -495,4 +495,17 @@ theorem Final.out_length_le {g : Digraph} {s : St} (h : Final g s) (hwf : g.WF) 
     (fun x hx => List.mem_range.mpr (reach_lt hwf ((h.out_iff_reach x).mp hx)))
   simpa using this
 
+/-- an executable criterion for `Rooted`: the yield order of the model's own run lists every node
+    (the yield list is exactly the reachable set, `Final.out_iff_reach`) -/
+theorem rooted_of_order {g : Digraph} {l : List Nat}
+    (h : (computeRpo g).map (·.order) = some l) (hall : ∀ v, v < g.n → v ∈ l) : g.Rooted := by
+  simp only [computeRpo] at h
+  split at h
+  · simp at h
+  · next s hs =>
+    simp at h; subst h
+    intro v hv
+    have hf := postOrder_final g _ s hs
+    exact (hf.out_iff_reach v).mp (by simpa using hall v hv)
+
 end AgVerif.Rpo
